@@ -65,6 +65,12 @@ impl Reporter {
         }
     }
 
+    /// Snapshot of the merged per-address statistics (verification builds only)
+    #[cfg(roughenough_verif)]
+    pub fn verif_client_stats(&self) -> Vec<ClientStats> {
+        self.client_stats.values().copied().collect()
+    }
+
     pub fn receive_client_stats(&mut self) {
         let start = Instant::now();
         let mut num_processed = 0;
